@@ -36,6 +36,14 @@ func applyUnifiedDiff(repo, diff string, reverse bool) (map[string][]byte, error
 			flush()
 			a := strings.TrimPrefix(strings.Fields(l)[1], "a/")
 			b := strings.TrimPrefix(strings.Fields(lines[i+1])[1], "b/")
+			if a == "/dev/null" && b != "/dev/null" && !reverse {
+				// a file created by the patch (a function moved into a new file of the
+				// package): the overlay adds it to its directory's package
+				file = b
+				cur = []string{}
+				i += 2
+				continue
+			}
 			if a == "/dev/null" || b == "/dev/null" || strings.TrimPrefix(a, "a/") != strings.TrimPrefix(b, "b/") {
 				return nil, fmt.Errorf("unsupported diff (creation/deletion/rename) for %s -> %s", a, b)
 			}
